@@ -110,6 +110,13 @@ pub fn worker(ctx: &mut WorkerCtx) {
         }
         base += 1;
     }
+    // loops around scans: knowledge about the enclosing loop must be dropped after a pointer-moving sub-loop
+    let n0 = base;
+    base += spaces::space_n(ctx.tier == Tier::Thorough, &mut |i, c| {
+        if ctx.owns(n0 + i) {
+            work.push((n0 + i, c.to_vec()));
+        }
+    });
     // wide values as loop conditions: divergence must not depend on the low bits only
     for c in wide_divergent() {
         if ctx.owns(base) {
